@@ -39,6 +39,9 @@ def run(ctx):
         raise core.CheckerBroken("lemma encoding proves commutation without O3: encoding unsound")
     total, ok, failing = static_part(ctx, lambda n: ".fill" in n or "fill_one_cube" in n or "_fill" in n)
     for s in failing:
+        if "<unknown provenance>" in s.why or s.name.endswith("/unsupported-statement"):
+            ctx.notes.append("proof_stale: %s (%s) - construct not recognised by the provenance analysis; decided by the frame monitor" % (s.name, s.text))
+            continue
         ctx.violation(core.Violation("C16", s.name, "store site in a task body is not provably confined to the task's own block / locals: %s (%s)" % (s.text, s.why),
                                      input=None, cls={"site": s.name}, solver={"site": s.text, "why": s.why}, no_input=True))
     mon, totals = runner.run_sharded(drive_sched.work, ctx.tier)
